@@ -1,5 +1,6 @@
+from xeng import progs, progs2, progs3
 from . import _common
 
 
 def run(out):
-    _common.run(out, 'C17', s_props=['C17'])
+    _common.run(out, 'C17', x=[], s_props=['C17'])
